@@ -67,6 +67,17 @@ def _written_cell(kind: str, cell, missing: str, fill):
     """What the real save_scsv writes for a one-column, one-row table (None if it refuses)."""
     rec = _Rec()
     saved = (pio.open if hasattr(pio, "open") else None, pio.resolve_path, pio.csv, pio.np, pio._log)
+    real_header = pio.write_scsv_header
+
+    def header_validation_only(stream, schema, comments=None):
+        # The header TEXT is not the subject of the cell-level contracts (it is decided by header_scalars_are_single_quoted
+        # and the z3 YAML-scalar task); rendering it calls str.replace on the symbolic marker, which CrossHair 0.0.110 cannot
+        # execute (CrossHairInternal in SymbolicBoundedIntTuple). The schema validation the real function performs first is kept.
+        if not pio._validate_scsv_schema(schema):
+            raise pio._err.SCSVError("refusing to write invalid schema to stream.")
+        stream.write("---")
+
+    pio.write_scsv_header = header_validation_only
     pio.open = lambda *a, **k: rec
     pio.resolve_path = lambda p, refdir=None: _Path()
     pio.csv = _Csv
@@ -81,6 +92,7 @@ def _written_cell(kind: str, cell, missing: str, fill):
         else:
             pio.open = saved[0]
         pio.resolve_path, pio.csv, pio.np, pio._log = saved[1:]
+        pio.write_scsv_header = real_header
     return rec.rows[1][0]
 
 
